@@ -110,6 +110,16 @@ def with_write_faults(rnd=None):
                                 ["send", "ac_ctrl", "idem", "inline"]]
                     ops += [["adv", 4.5], ["q"]]
                     out.append(ops)
+    # sends that arrive from the connected notification: the client already calls itself
+    # connected, but the held messages have not been written yet
+    for held in (8, 9, 10):
+        for pol in ("idem", "long"):
+            ops = [["net_default", "refuse", 0.0]]
+            ops += [["send", S.KINDS[i % 3], pol, "inline"] for i in range(held)]
+            ops += [["on_connect_send", "zone_ctrl", "idem"], ["on_connect_send", "ac_ctrl", "idem"],
+                    ["on_connect_send", "quick_timer", "long"]]
+            ops += [["net_default", "accept", 0.0], ["adv", 2.5], ["q"]]
+            out.append(ops)
     return out
 
 
@@ -142,11 +152,15 @@ def check_bound(gen, run):
         b = by.get(d["conn"])
         if not b:
             continue
+        # held just before the flush = accepted, and submitted before the first byte went out
+        # (an accepted message is in the buffer from the moment of the call)
+        first_write = min((wr[0] for wr in b["writes"]), default=None)
         flushed = []
         for i in b["frames"]:
             r = p2s.get((i["frame"].typ, bytes(i["frame"].data)))
-            if r is not None and "call_seq" in r and r["call_seq"] < seq and abs(i["t"] - t) < 1e-9 \
-                    and r["serial"] not in flushed:
+            if r is not None and r.get("outcome") == "ok" and r.get("call_seq") is not None \
+                    and first_write is not None and r["call_seq"] <= first_write \
+                    and abs(i["t"] - t) < 1e-9 and r["serial"] not in flushed:
                 flushed.append(r["serial"])
         if len(flushed) > CAP:
             viol.append({"mechanism": "more-than-ten-messages-held-for-a-down-link",
